@@ -59,25 +59,18 @@ Definition dispatch_exact_x (raises : nat -> bool) (st : dstate) (m : omsg) (t :
   | Some l => call_all_x raises st l m t src port
   end.
 
-Fixpoint dispatch_keys_x (raises : nat -> bool) (st : dstate) (keys : table) (m : omsg) (t : mtime)
-         (src : Z * Z) (port : Z) : dstate * list inv * bool :=
-  match keys with
-  | [] => (st, [], false)
-  | (k, l) :: r =>
-    match osc_rematch (m_addr m) k with
-    | MTrue => let '(st1, o1, ab) := call_all_x raises st l m t src port in
-               if ab then (st1, o1, true)
-               else let '(st2, o2, ab2) := dispatch_keys_x raises st1 r m t src port in (st2, o1 ++ o2, ab2)
-    | MFalse => dispatch_keys_x raises st r m t src port
-    | _ => (st, [], true)                                   (* re.error *)
-    end
+Definition dispatch_match_x (raises : nat -> bool) (st : dstate) (m : omsg) (t : mtime) (src : Z * Z) (port : Z)
+  : dstate * list inv * bool :=
+  match matched_keys m (act_match st) with
+  | None => (st, [], true)                                  (* re.error *)
+  | Some ks => call_all_x raises st (reg_entries st ks) m t src port
   end.
 
 Definition incoming_x (raises : nat -> bool) (st : dstate) (m : omsg) (t : mtime) (src : Z * Z) (port : Z)
   : dstate * list inv * bool :=
   let '(st1, o1, ab) := dispatch_exact_x raises st m t src port in
   if ab then (st1, o1, true)
-  else let '(st2, o2, ab2) := dispatch_keys_x raises st1 (act_match st1) m t src port in (st2, o1 ++ o2, ab2).
+  else let '(st2, o2, ab2) := dispatch_match_x raises st1 m t src port in (st2, o1 ++ o2, ab2).
 
 (* one clock task per message: an abort ends that message only *)
 Fixpoint incoming_all_x (raises : nat -> bool) (st : dstate) (ms : list (mtime * omsg)) (src : Z * Z) (port : Z)
